@@ -418,7 +418,9 @@ func (s *s1) transact(i int, txn TxnSpec) *TxnOutcome {
 			} else if key != "" {
 				e.Abort("server never answers (" + kind + " in " + key + "): C04's concern")
 			} else {
-				e.Fatalf("%s", msg)
+				// no goroutine of the server is working on it any more: the reply was
+				// lost inside the library (for instance because it could not be encoded)
+				e.ViolateK(e.Property+".txn-hang", "no-answer", "%s", msg)
 			}
 		}
 		return nil
